@@ -108,7 +108,29 @@ def run_case(cs):
     if child_sealed_first:
         _learn_child(cs, root, current, first_gen, earliest, steps)
     shape = []
+    late = {}
+    if not exhaustive and len(seq) >= 2 and rng.random() < 0.35:
+        # a file that joins in a later generation; its name may differ only in case from a recorded one
+        gl = rng.randint(1, len(seq) - 1)
+        basef = rng.choice(files)
+        dn, bn = os.path.split(basef)
+        cand = rng.choice([bn.upper(), bn.capitalize(), bn.swapcase(), "late-" + bn])
+        nm = (dn + "/" if dn else "") + cand
+        if nm not in files and nm.lower() != basef.lower() or (nm not in files and nm != basef):
+            late[gl] = nm
     for g, fm in enumerate(seq):
+        if g in late:
+            nm = late[g]
+            original[nm] = rng.randbytes(rng.randint(1, 30)) + nm.encode()
+            current[nm] = original[nm]
+            with open(os.path.join(root, nm), "wb") as fh:
+                fh.write(original[nm])
+            files = files + [nm]
+            for t in trans[g:]:
+                t.setdefault(nm, "K")
+            cs.count("late_files")
+            if nm.lower() in {f.lower() for f in files if f != nm}:
+                cs.count("late_case_variant_files")
         if g > 0:
             for f, t in trans[g - 1].items():
                 if t == "A":
